@@ -43,7 +43,7 @@ def mk_tier(spec: Dict[str, Any]):
 
 def mk_tg(spec: Dict[str, Any]):
     p = P()
-    tg = p.Textgrid()
+    tg = p.Textgrid(spec.get("minT"), spec.get("maxT"))
     for t in spec["tiers"]:
         with quiet():
             tg.addTier(mk_tier(t), reportingMode="silence")
